@@ -2,6 +2,7 @@ import IpamVerif.System
 import IpamVerif.Props.C17
 import IpamVerif.Safety
 import IpamVerif.Restart
+import IpamVerif.Sticky
 /-!
 # C06 — a ClusterCIDR is released only when no node depends on it, then never used
 
@@ -9,6 +10,8 @@ import IpamVerif.Restart
     (or no entry exists); while nodes are associated the item fails and is retried;
 (b) from the step that processed the deletion request on, the entry is terminating and is not in the
     list an allocation walks — with or without selector (after the repair of the catch-all bucket);
+    over whole histories without a restart, no other assumption (`Sticky.lean`, `terminating_entry_never_serves_again`):
+    no node item, notification, service filter or ClusterCIDR item ever clears the flag;
 (c) after the entry is removed nothing re-adds it while the object keeps being deleted;
 (d) every Update sent carries the finalizers of the cached object plus or minus the controller's own
     finalizer, in the same order; nothing else of the object is part of the model's write.
@@ -298,5 +301,49 @@ theorem release_is_safe_after_any_history_with_restarts (s0 : Sys) (h0 : Restart
       (reconcileDelete (run s0 evs) o w).1.alloc.ccs = pre ++ post ∧
       ∀ v ∈ (run s0 evs).api.nodes, v.deleting = false → ∀ cd ∈ v.cidrs, ∀ p, c.pool cd.fam = some p → cd.Disjoint p.geo.range :=
   released_ranges_hold_no_live_cidr _ (Restart.inv3_run evs s0 h0 hf).inv o w hw
+
+/-- **then never used** — every history without a restart, no other assumption: once the entry of a ClusterCIDR is
+terminating (its deletion request was processed while nodes depended on it), then in every later state — up to the
+moment the entry is removed from the map — every entry filed under that selector key and name is terminating and
+is in no list an allocation or a recording walks, for any node labels -/
+theorem terminating_entry_never_serves_again (s : Sys) (evs : List Ev) (p : String × String)
+    (hd : Sticky.Dead s.alloc p) (hb : ∀ e ∈ evs, ∀ svcs ws, e ≠ Ev.boot svcs ws) :
+    (∀ (i : Nat) (c : CC), (run s evs).alloc.ccs[i]? = some c → OnePer.kn c = p →
+        c.term = true ∧ ∀ ls, i ∉ (run s evs).alloc.ordered ls true) ∨
+    ∃ pre post, evs = pre ++ post ∧ p ∉ OnePer.KN (run s pre).alloc := by
+  rcases Sticky.run_dead evs s p hd hb with h | h
+  · left
+    intro i c hc hk
+    have ht : c.term = true := by
+      cases hterm : c.term with
+      | true => rfl
+      | false =>
+        exfalso
+        apply h
+        unfold Sticky.Live
+        refine List.mem_map.mpr ⟨c, List.mem_filter.mpr ⟨List.mem_of_getElem? hc, by simp [hterm]⟩, hk⟩
+    exact ⟨ht, fun ls => terminating_never_served _ ls i c hc ht⟩
+  · right; exact h
+
+/-- the premise is met by a real history: the controller starts, `n1` is served from the selector-less ClusterCIDR `a`,
+`a` is deleted and the deletion request is processed while `n1` depends on it … -/
+def exTerm : List Ev :=
+  [.boot [] [], .nodeAdd ⟨"n1", [], [], false, false⟩, .deliverNode "n1" false, .procNode "n1" false [],
+   .ccDel "a", .deliverCC "a", .procCC "a" .ok]
+/-- … later a new node arrives, the ClusterCIDR item is retried with a failing write, `n1` is re-synced -/
+def exLater : List Ev :=
+  [.nodeAdd ⟨"n5", [], [], false, false⟩, .deliverNode "n5" false, .procNode "n5" false [], .procCC "a" .fail,
+   .procNode "n1" false []]
+
+instance (a : Alloc) (p : String × String) : Decidable (Sticky.Dead a p) := by unfold Sticky.Dead; infer_instance
+
+example : Sticky.Dead (run Restart.exStart3 exTerm).alloc ("kubernetes.io/clusterCIDR in (default)", "a") := by decide +kernel
+example : ∀ e ∈ exLater, ∀ svcs ws, e ≠ Ev.boot svcs ws := by
+  intro e he svcs ws; simp [exLater] at he; rcases he with rfl | rfl | rfl | rfl | rfl <;> simp
+/-- the new node, which only `a` could serve, gets nothing; `a` stays mapped (n1 still depends on it) and terminating -/
+example : (run Restart.exStart3 (exTerm ++ exLater)).api.nodes.map (fun n => (n.name, n.cidrs.map (·.addr))) =
+    [("n1", [0x0a000000]), ("n5", [])] ∧
+    Sticky.KNT (run Restart.exStart3 (exTerm ++ exLater)).alloc =
+      [("kubernetes.io/clusterCIDR in (default)", "a", true), ("zone in (a)", "b", false)] := by decide +kernel
 
 end Ipam.C06
